@@ -124,7 +124,9 @@ pub fn body_roller(count: u32, witness: bool) {
     let roller = FixedWindowRoller::verif_new(&pattern, 0, count);
     let apath = fs::path(active);
 
-    let res = roller.roll(Path::new(&apath));
+    // `rotate` through the door-opener: the same code `roll` runs, without the conversion of its
+    // error into anyhow::Error (whose error objects make every io::Error drop a fan-out)
+    let res = roller.verif_rotate(Path::new(&apath));
     let failed = unsafe { FAIL_AT } != 255;
     assert!(res.is_err() == failed, "C08: the failing rotation reports an error (and only then)");
     // ---- state left behind by the failed (or completed) rotation ----------------------------
@@ -149,7 +151,7 @@ pub fn body_roller(count: u32, witness: bool) {
         SNAP_AT = 255;
     }
     if failed {
-        let res2 = roller.roll(Path::new(&apath));
+        let res2 = roller.verif_rotate(Path::new(&apath));
         assert!(res2.is_ok(), "C08: once the obstruction is gone the roller rotates without manual intervention");
         assert!(fs::get(active).is_none(), "C08: after recovery the rolled file is archived");
         assert!(id_at(slot[0]) == 1, "C08: after recovery the newest archive is the rolled file");
@@ -157,8 +159,11 @@ pub fn body_roller(count: u32, witness: bool) {
     unsafe {
         log4rs::verif_hooks::ROTATE_STEP = None;
     }
-    cover!(failed && fail_at >= 1, "a step after the first one failed");
-    cover!(unsafe { IMG_TAKEN } && snap_at >= 1, "a crash image taken in the middle of the rotation");
+    let w1 = if count >= 2 { failed && fail_at >= 1 } else { failed };
+    let taken = unsafe { IMG_TAKEN };
+    let w2 = if count >= 2 { taken && snap_at >= 1 } else { taken };
+    cover!(w1, "a step failed (count >= 2: a step after the first one)");
+    cover!(w2, "a crash image was taken (count >= 2: in the middle of the rotation)");
     if witness {
         assert!(false, "WITNESS");
     }
@@ -310,10 +315,19 @@ harnesses! {
         #[cfg_attr(kani, kani::stub(log4rs::encode::pattern::PatternEncoder::new, crate::util::stub_pattern_new_cut))]
     }
     #[kani::unwind(8)]
+    #[kani::stub(<anyhow::Error as std::convert::From<std::io::Error>>::from, crate::util::stub_anyhow_from_cut)]
+    fn fault_roller_c1() { body_roller(1, false) }
+    #[kani::unwind(8)]
+    #[kani::stub(<anyhow::Error as std::convert::From<std::io::Error>>::from, crate::util::stub_anyhow_from_cut)]
+    fn fault_roller_c1_witness() { body_roller(1, true) }
+    #[kani::unwind(8)]
+    #[kani::stub(<anyhow::Error as std::convert::From<std::io::Error>>::from, crate::util::stub_anyhow_from_cut)]
     fn fault_roller_c2() { body_roller(2, false) }
     #[kani::unwind(8)]
+    #[kani::stub(<anyhow::Error as std::convert::From<std::io::Error>>::from, crate::util::stub_anyhow_from_cut)]
     fn fault_roller_c2_witness() { body_roller(2, true) }
     #[kani::unwind(8)]
+    #[kani::stub(<anyhow::Error as std::convert::From<std::io::Error>>::from, crate::util::stub_anyhow_from_cut)]
     fn fault_roller_c3() { body_roller(3, false) }
     #[kani::unwind(10)]
     fn fault_appender_post() { body_appender(false, 2, false) }
